@@ -38,8 +38,14 @@ Definition masked (ops : list op) (obs : list (option N)) : list sx :=
   map (fun p : bool * option N => if fst p then A (-1)%Z else of_option of_n (snd p)) (combine (mask ops 0 None) obs).
 
 (* model: the mechanism's observations after every prefix *)
+(* timestamps: (2 on_close wall0 wall1) -> (micros secs_bits millis_bits) *)
+Definition c18_ts (x : sx) : sx :=
+  let d := ts_value (sx_bool (sx_arg x 0)) (sx_z (sx_arg x 1)) (sx_z (sx_arg x 2)) in
+  L [of_n (ts_micros d); of_n (ts_secs_bits d); of_n (ts_millis_bits d)].
+
 Definition c18_run (x : sx) : sx :=
   match sx_tag x with
+  | 2%Z => c18_ts x
   | 0%Z => let ops := map dec_op (sx_list (sx_arg x 0)) in L (masked ops (observe sw_init ops))
   | _ => L (map of_n (tobserve (timer_init (sx_n (sx_arg x 0))) (map dec_top (sx_list (sx_arg x 1)))))
   end.
@@ -47,6 +53,7 @@ Definition c18_run (x : sx) : sx :=
 (* property predicate: the history-based specification of every prefix *)
 Definition c18_spec (x : sx) : sx :=
   match sx_tag x with
+  | 2%Z => c18_ts x
   | 0%Z => let ops := map dec_op (sx_list (sx_arg x 0)) in
            L (masked ops (map (fun k => spec (firstn k ops)) (seq 1 (length ops))))
   | _ => let ops := map dec_top (sx_list (sx_arg x 1)) in
